@@ -25,6 +25,14 @@ macro_rules! opaque {
     )* } }
 }
 opaque!(DeliveryTag, Payload, AttachRest, SessionCtlTx, LinkFlow, TransactionId, AmqpError, SessionStopReason, Source, Symbol, SenderRelayFlowState, ReceiverRelayFlowState, ChanSendError);
+// bytes::Bytes as far as these functions may look at it: its length (R11)
+impl Payload {
+    pub uninterp spec fn spec_len(&self) -> nat;
+    #[verifier::external_body]
+    pub fn len(&self) -> (r: usize) ensures r == self.spec_len() { unimplemented!() }
+    #[verifier::external_body]
+    pub fn is_empty(&self) -> (r: bool) ensures r == (self.spec_len() == 0) { unimplemented!() }
+}
 
 #[verifier::external_body]
 pub struct DeliveryState { _p: u8 }
